@@ -799,6 +799,20 @@ def items_alter(ctx):
                 n = pk.end - pk.start
                 for lo in range(0, n, chunk):
                     items.append((world, i, k, lo, min(n, lo + chunk), ctx.tier))
+        # Within one item the altered copies meet the SAME endpoint one after the other: a harmless early copy can
+        # mask what a later one would have done to a fresh state (e.g. initialise a server's Initial keys properly
+        # before the copy with the altered DCID arrives).  Where the parsing decisions live - the first 48 bytes of
+        # a packet - every byte therefore gets an item (a fresh state) of its own: quick for the first datagram each
+        # endpoint ever receives, thorough for every delivery.
+        first = {}
+        for i, (did, dst, data, addr, kind) in enumerate(deliveries):
+            first.setdefault(dst, i)
+        for i, (did, dst, data, addr, kind) in enumerate(deliveries):
+            if ctx.tier == "quick" and first[dst] != i:
+                continue
+            for k, pk in enumerate(packets_of(data)):
+                for lo in range(0, min(48, pk.end - pk.start)):
+                    items.append((world, i, k, lo, lo + 1, ctx.tier))
     return items
 
 
